@@ -23,7 +23,13 @@ Inductive cop :=
 | CGc (before after : list crow)                           (* raw key census before / after Cleandeleted *)
 | CRestart
 | CCrash (m : mop) (k : nat)                               (* the process died at hook point k of m and was restarted *)
-| CQuery (q : query) (o : oanswer).
+| CQuery (q : query) (o : oanswer)
+| CHold (slot : Z) (n : name) (o : Z)                      (* keep the dataset handle of name n; 0 ok, 1 no such dataset *)
+| CStale (slot : Z) (ents : list ent) (o : Z)              (* a batch through a handle obtained earlier; 0 stored, 1 no such handle (process restarted) *)
+| CKeep (slot : Z) (start : uri) (pred : option Z) (inverse : bool) (scope : list name) (o : option (list (Z * Z)))
+                                                           (* first page of a paged relation query (any limit); the continuation is kept *)
+| CCont (slot : Z) (start : uri) (pred : option Z) (inverse : bool) (o : option (list (Z * Z))).
+                                                           (* all remaining pages of that query, fetched later with the kept continuation *)
 Definition tcase := list cop.
 
 (** order = order of VARIANTS in lib/props/c07.py *)
@@ -55,25 +61,62 @@ Definition model_rows (rows : list crow) : list crow :=
   filter (fun r => (Z.eqb (fst (fst r)) 1 || Z.eqb (fst (fst r)) 4 || Z.eqb (fst (fst r)) 8) && negb (Z.eqb (snd (fst r)) 1)) rows.
 Definition no_core (data : list (Z * dstate)) := filter (fun p => negb (Z.eqb (fst p) 1)) data.
 
-Fixpoint agree_run (v : variant) (h : hub) (ops : list cop) : bool :=
+(** what the client side of a history holds: dataset handles (slot -> internal dataset id; they die with the process)
+    and continuations of paged queries (slot -> the dataset ids the scope was resolved to when the query started) *)
+Record aux := { a_slots : list (Z * Z); a_conts : list (Z * list Z) }.
+Definition aux0 : aux := {| a_slots := []; a_conts := [] |}.
+Definition drop_slots (a : aux) : aux := {| a_slots := []; a_conts := a_conts a |}.
+
+Definition subsetb (a b : list (Z * Z)) : bool := forallb (fun x => existsb (pair_eqb x) b) a.
+(** the relation set of a query whose scope is already resolved to dataset ids *)
+Definition rel_ids (h : hub) (sc : list Z) (start : uri) (pred : option Z) (inverse : bool) : list (Z * Z) :=
+  pcanon (map snd (collect (pass (h_del h) sc) (if inverse then f_in start pred else f_out start pred) (h_data h))).
+(** a write through a handle goes to the dataset id of the handle, whatever happened to the dataset since *)
+Definition stale_write (v : variant) (i : Z) (ents : list ent) (h : hub) : hub :=
+  upd_st (fun st => apply_wop (v_eq v) (v_dup v) st (WBatch i ents)) h.
+
+Fixpoint agree_run (v : variant) (h : hub) (a : aux) (ops : list cop) : bool :=
   match ops with
   | [] => true
   | o :: ops' =>
     match o with
     | CWrite n ents oc =>
-      let '(h', r) := write v n ents h in Z.eqb (outcome_code r) oc && agree_run v h' ops'
+      let '(h', r) := write v n ents h in Z.eqb (outcome_code r) oc && agree_run v h' a ops'
     | CMop m oc =>
-      let '(h', r) := run_mop v m h in Z.eqb (outcome_code r) oc && agree_run v h' ops'
+      let '(h', r) := run_mop v m h in Z.eqb (outcome_code r) oc && agree_run v h' a ops'
     | CGc before after =>
       list_eqb crow_eqb (csort (census_of (no_core (h_data h)))) (csort (model_rows before))
       && list_eqb crow_eqb (gc_census (h_del h) before) after
-      && agree_run v (gc h) ops'
-    | CRestart => agree_run v (restart v h) ops'
-    | CCrash m k => agree_run v (crash_mop v m k h) ops'
-    | CQuery q oa => answer_matches (obs h q) oa && agree_run v h ops'
+      && agree_run v (gc h) a ops'
+    | CRestart => agree_run v (restart v h) (drop_slots a) ops'
+    | CCrash m k => agree_run v (crash_mop v m k h) (drop_slots a) ops'
+    | CQuery q oa => answer_matches (obs h q) oa && agree_run v h a ops'
+    | CHold slot n oc =>
+      match assoc n (h_names h) with
+      | Some i => Z.eqb oc 0 && agree_run v h {| a_slots := (slot, i) :: a_slots a; a_conts := a_conts a |} ops'
+      | None => Z.eqb oc 1 && agree_run v h a ops'
+      end
+    | CStale slot ents oc =>
+      match assoc slot (a_slots a) with
+      | Some i => Z.eqb oc 0 && agree_run v (stale_write v i ents h) a ops'
+      | None => Z.eqb oc 1 && agree_run v h a ops'
+      end
+    | CKeep slot start pred inverse scope o =>
+      let sc := scope_ids (h_names h) scope in
+      match o with
+      | Some l => subsetb (pcanon l) (rel_ids h sc start pred inverse)
+                  && agree_run v h {| a_slots := a_slots a; a_conts := (slot, sc) :: a_conts a |} ops'
+      | None => false
+      end
+    | CCont slot start pred inverse o =>
+      match o, assoc slot (a_conts a) with
+      | Some l, Some sc => subsetb (pcanon l) (rel_ids h sc start pred inverse) && agree_run v h a ops'
+      | Some l, None => match l with [] => agree_run v h a ops' | _ => false end
+      | None, _ => false
+      end
     end
   end.
-Definition agree (v : variant) (c : tcase) : bool := agree_run v hub0 c.
+Definition agree (v : variant) (c : tcase) : bool := agree_run v hub0 aux0 c.
 
 (** ** The executable spec S on the implementation's observations.  A crash leaves either endpoint,
     so the spec run carries the set of spec states still consistent with everything observed. *)
@@ -96,7 +139,31 @@ Definition gc_census_ok (before after : list crow) : bool :=
 Definition wef := eq_full.
 Definition wdm := DupLocalElseStored.
 
-Fixpoint spec_run (cands : list sstate) (ops : list cop) : bool :=
+(** A spec state also knows the dataset handles: a handle follows its dataset through renames and is dead (None) once the
+    dataset is deleted - a write through a dead handle stores nothing that anybody can ever read (only time passes); a
+    re-created dataset of the same name is a different dataset.  Handles do not survive a restart. *)
+Definition shandles := list (Z * option name).
+Definition sh_mop (m : mop) (s : sstate) (hs : shandles) : shandles :=
+  match m with
+  | MCreate _ => hs
+  | MDelete n => if Z.eqb (s_outcome m s) 0
+                 then map (fun p => match snd p with Some x => if Z.eqb x n then (fst p, None) else p | None => p end) hs
+                 else hs
+  | MRename o n => if Z.eqb (s_outcome m s) 0
+                   then map (fun p => match snd p with Some x => if Z.eqb x o then (fst p, Some n) else p | None => p end) hs
+                   else hs
+  end.
+Definition s_tick (s : sstate) : sstate := {| ss_ds := ss_ds s; ss_clock := ss_clock s + 1 |}.
+Definition s_stale (hn : option name) (ents : list ent) (s : sstate) : sstate :=
+  match hn with
+  | Some n => if s_has n s then s_write wef wdm n ents s else s_tick s
+  | None => s_tick s
+  end.
+Definition rel_of (a : answer) : list (Z * Z) := match a with ARel l => l | _ => [] end.
+
+Definition scand := (sstate * shandles)%type.
+
+Fixpoint spec_run (cands : list scand) (ops : list cop) : bool :=
   match cands with
   | [] => false
   | _ =>
@@ -105,35 +172,68 @@ Fixpoint spec_run (cands : list sstate) (ops : list cop) : bool :=
     | o :: ops' =>
       match o with
       | CWrite n ents oc =>
-        spec_run (map (s_write wef wdm n ents) (filter (fun s => Z.eqb (if s_has n s then 0 else 1) oc) cands)) ops'
-      | CMop m oc => spec_run (map (s_mop m) (filter (fun s => Z.eqb (s_outcome m s) oc) cands)) ops'
+        spec_run (map (fun c => (s_write wef wdm n ents (fst c), snd c))
+                      (filter (fun c => Z.eqb (if s_has n (fst c) then 0 else 1) oc) cands)) ops'
+      | CMop m oc => spec_run (map (fun c => (s_mop m (fst c), sh_mop m (fst c) (snd c)))
+                                   (filter (fun c => Z.eqb (s_outcome m (fst c)) oc) cands)) ops'
       | CGc before after => gc_census_ok before after && spec_run cands ops'
-      | CRestart => spec_run cands ops'
-      | CCrash m k => spec_run (cands ++ map (s_mop m) cands) ops'
-      | CQuery q oa => spec_run (filter (fun s => answer_matches (sobs s q) oa) cands) ops'
+      | CRestart => spec_run (map (fun c => (fst c, [])) cands) ops'
+      | CCrash m k => spec_run (map (fun c => (fst c, [])) cands ++ map (fun c => (s_mop m (fst c), [])) cands) ops'
+      | CQuery q oa => spec_run (filter (fun c => answer_matches (sobs (fst c) q) oa) cands) ops'
+      | CHold slot n oc =>
+        spec_run (map (fun c => if s_has n (fst c) then (fst c, (slot, Some n) :: snd c) else c)
+                      (filter (fun c => Z.eqb (if s_has n (fst c) then 0 else 1) oc) cands)) ops'
+      | CStale slot ents oc =>
+        spec_run (map (fun c => match assoc slot (snd c) with
+                                | Some hn => (s_stale hn ents (fst c), snd c)
+                                | None => c
+                                end)
+                      (filter (fun c => Z.eqb (match assoc slot (snd c) with Some _ => 0 | None => 1 end) oc) cands)) ops'
+      | CKeep slot start pred inverse scope o =>
+        (* the first page holds only relations of the query's answer at that moment *)
+        match o with
+        | Some l => spec_run (filter (fun c => subsetb (pcanon l) (rel_of (sobs (fst c) (QRelated start pred inverse scope)))) cands) ops'
+        | None => false
+        end
+      | CCont slot start pred inverse o =>
+        (* whatever the scope was: every relation returned later exists in some dataset that exists now -
+           nothing of a deleted dataset is ever returned *)
+        match o with
+        | Some l => spec_run (filter (fun c => subsetb (pcanon l) (rel_of (sobs (fst c) (QRelated start pred inverse [])))) cands) ops'
+        | None => false
+        end
       end
     end
   end.
-Definition spec_ok (c : tcase) : bool := spec_run [sstate0] c.
+Definition spec_ok (c : tcase) : bool := spec_run [(sstate0, [])] c.
 
 Definition evaluate (cs : list tcase) : list (list N) :=
   map (fun v => indices_where (fun c => negb (agree v c)) cs) variants
   ++ [ indices_where (fun c => negb (spec_ok c)) cs ].
 
 (** diagnostics: index of the first operation the model does not predict *)
-Fixpoint first_bad (v : variant) (h : hub) (ops : list cop) (i : N) : option N :=
+Fixpoint first_bad (v : variant) (h : hub) (a : aux) (ops : list cop) (i : N) : option N :=
   match ops with
   | [] => None
   | o :: ops' =>
-    if agree_run v h [o] then
+    if agree_run v h a [o] then
       let h' := match o with
                 | CWrite n ents _ => fst (write v n ents h)
                 | CMop m _ => fst (run_mop v m h)
                 | CGc _ _ => gc h
                 | CRestart => restart v h
                 | CCrash m k => crash_mop v m k h
-                | CQuery _ _ => h
+                | CStale slot ents _ => match assoc slot (a_slots a) with Some j => stale_write v j ents h | None => h end
+                | _ => h
                 end in
-      first_bad v h' ops' (N.succ i)
+      let a' := match o with
+                | CRestart | CCrash _ _ => drop_slots a
+                | CHold slot n _ => match assoc n (h_names h) with
+                                    | Some j => {| a_slots := (slot, j) :: a_slots a; a_conts := a_conts a |}
+                                    | None => a end
+                | CKeep slot _ _ _ scope _ => {| a_slots := a_slots a; a_conts := (slot, scope_ids (h_names h) scope) :: a_conts a |}
+                | _ => a
+                end in
+      first_bad v h' a' ops' (N.succ i)
     else Some i
   end.
